@@ -1,4 +1,5 @@
 import RactorModel.Lemmas.Frames
+import RactorModel.Extracted
 
 /-!
 # C19 — wire decoding is total, bounded and round-trips
@@ -265,6 +266,12 @@ theorem meta_ttl_zero_and_huge_are_lossy :
 
 theorem chunk_size_value : chunkSize = 8192 ∧ defaultMaxFrame = 16777216 := by decide
 
+/-- E-SRC: `FRAME_READ_CHUNK_SIZE` as extracted from `ractor_cluster/src/net/session.rs`. -/
+theorem src_frame_chunk : Extracted.frameReadChunkSize = some Codec.chunkSize := by decide
+
+/-- E-SRC: `DEFAULT_MAX_INBOUND_FRAME_SIZE` as extracted from `ractor_cluster/src/node.rs`. -/
+theorem src_default_max_frame : Extracted.defaultMaxInboundFrameSize = some Codec.defaultMaxFrame := by decide
+
 /-! ## non-vacuity -/
 
 example : wf (.vecUint 2) (.nats [0, 65535, 258]) = true ∧
@@ -313,3 +320,5 @@ end C19
 #print axioms C19.meta_roundtrip
 #print axioms C19.meta_ttl_zero_and_huge_are_lossy
 #print axioms C19.chunk_size_value
+#print axioms C19.src_frame_chunk
+#print axioms C19.src_default_max_frame
